@@ -28,6 +28,7 @@ type Contract struct {
 	Props    []string
 	Requires []Clause
 	Ensures  []Clause
+	Witness  []Clause // definitions of specification functions (uf/ufptr) over the result of this call, assumed at exit
 	Modifies []string
 	ModGiven bool
 	Ats      map[string][]Clause // call-site assertions keyed "Name#k"
@@ -97,7 +98,7 @@ func newContractDB() *ContractDB {
 
 var labelRe = regexp.MustCompile(`^\[([A-Za-z0-9_.:\-]+)\]\s*`)
 
-var clauseKeywords = map[string]bool{"func": true, "pure": true, "lemma": true, "props": true, "requires": true, "ensures": true,
+var clauseKeywords = map[string]bool{"func": true, "pure": true, "lemma": true, "props": true, "requires": true, "ensures": true, "witness": true,
 	"modifies": true, "loop": true, "option": true, "assumed": true, "package": true, "transparent": true, "opaque": true,
 	"hyp": true, "concl": true, "end": true, "at": true, "interfere": true, "atlock": true, "ghostmap": true, "constglobal": true, "havoc": true}
 
@@ -244,13 +245,20 @@ func (db *ContractDB) parseContractText(file, text, defaultPkg string) error {
 				return fmt.Errorf("%s:%d: assumed outside func", file, c.line)
 			}
 			cur.Assumed = true
-		case "requires", "ensures":
+		case "requires", "ensures", "witness":
 			if cur == nil {
 				return fmt.Errorf("%s:%d: %s outside func", file, c.line, c.kw)
 			}
 			cl, err := mkClause(c.rest, c.line)
 			if err != nil {
 				return err
+			}
+			if c.kw == "witness" {
+				if !strings.HasPrefix(cl.Src, "forall ") || !strings.Contains(cl.Src, "result") || !(strings.Contains(cl.Src, "uf(") || strings.Contains(cl.Src, "ufptr(")) {
+					return fmt.Errorf("%s:%d: a witness clause must define a uf/ufptr function of `result`: forall v :: uf(..result..v) == E", file, c.line)
+				}
+				cur.Witness = append(cur.Witness, cl)
+				continue
 			}
 			if c.kw == "requires" {
 				cur.Requires = append(cur.Requires, cl)
@@ -311,9 +319,25 @@ func (db *ContractDB) parseContractText(file, text, defaultPkg string) error {
 		case "at":
 			// at NAME K assert EXPR
 			f := strings.Fields(c.rest)
-			if cur != nil && len(f) == 4 && f[2] == "mode" {
-				// at NAME K mode M : the call uses the callee's contract in mode M (its @M clauses apply)
-				cur.Modes[f[0]+"#"+f[1]] = f[3]
+			if cur != nil && (len(f) == 4 || (len(f) == 6 && f[4] == "when")) && f[2] == "mode" {
+				// at NAME K mode M [when R] : the call uses the callee's contract in mode M (its @M clauses apply);
+				// with `when R` only while this function itself is being proved in mode R
+				v := f[3]
+				if len(f) == 6 {
+					v += "@" + f[5]
+				}
+				cur.Modes[f[0]+"#"+f[1]] = v
+				continue
+			}
+			if cur != nil && len(f) >= 4 && f[2] == "invariant" {
+				// at NAME K invariant EXPR : invariant of the visit loop of a modelled iteration function (free: itk, itn, itseq)
+				rest := strings.TrimSpace(c.rest[strings.Index(c.rest, " invariant ")+11:])
+				cl, err := mkClause(rest, c.line)
+				if err != nil {
+					return err
+				}
+				key := f[0] + "#" + f[1] + "!inv"
+				cur.Ats[key] = append(cur.Ats[key], cl)
 				continue
 			}
 			if cur == nil || len(f) < 4 || !(f[2] == "assert" || (f[2] == "after" && f[3] == "assert")) {
